@@ -12,6 +12,7 @@ import (
 	"bytes"
 	"errors"
 	"fmt"
+	"math"
 	"sync"
 	"sync/atomic"
 	"time"
@@ -579,8 +580,14 @@ func (c *Cache[K, V]) processItems() {
 				i.Cost = c.cost(i.Value)
 			}
 			if !c.ignoreInternalCost {
-				// Add the cost of internally storing the object.
-				i.Cost += itemSize
+				// Add the cost of internally storing the object. Saturate instead
+				// of wrapping around: a cost close to math.MaxInt64 would otherwise
+				// turn negative and slip past the "bigger than the cache" check.
+				if i.Cost > math.MaxInt64-itemSize {
+					i.Cost = math.MaxInt64
+				} else {
+					i.Cost += itemSize
+				}
 			}
 
 			switch i.flag {
